@@ -356,13 +356,13 @@ def compile_batch(items, tag, chunk=60, per_item_ms=20000):
     return out, base
 
 
-def py_run(items, tag, version="3.11", chunk=150):
+def py_run(items, tag, version="3.11", chunk=150, script_name="pyrun.py"):
     """items: [{'id', 'pyc'|'py'|'code', 'timeout'?}] run under the given interpreter; {id: outcome}."""
     base = os.path.join(BUILD, "pr", tag + "_" + version)
     shutil.rmtree(base, ignore_errors=True)
     os.makedirs(base, exist_ok=True)
     chunks = [items[i:i + chunk] for i in range(0, len(items), chunk)]
-    script = os.path.join(VERIF, "py", "pyrun.py")
+    script = os.path.join(VERIF, "py", script_name)
 
     def run_chunk(arg):
         ci, ch = arg
@@ -394,7 +394,8 @@ def py_run(items, tag, version="3.11", chunk=150):
             if not rest:
                 break
             culprit = rest[0]
-            results[culprit["id"]] = {"id": culprit["id"], "stdout": "", "exc": "INTERPRETER-DIED", "exit": p.returncode, "msg": p.stderr[-300:]}
+            results[culprit["id"]] = {"id": culprit["id"], "stdout": "", "exc": "INTERPRETER-DIED", "exit": p.returncode, "msg": p.stderr[-300:],
+                                      "violations": [{"kind": "checker-died", "code": "", "detail": p.stderr[-300:]}]}
             pending = rest[1:]
             attempt += 1
         return results
